@@ -10,7 +10,7 @@ case "$P" in
 esac
 trap 'git -C /repo checkout -- exponax' EXIT
 for p in "$@"; do
-  out=$(cd /verif && ./check "$p" --tier "${TIER:-quick}" 2>/dev/null); rc=$?
+  out=$(cd /verif && VERIF_EVIDENCE_DIR=/tmp/seed/mx_evidence VERIF_REPLAY_DIR=/tmp/seed/mx_replays ./check "$p" --tier "${TIER:-quick}" 2>/dev/null); rc=$?
   echo "== $p rc=$rc :: $(echo "$out" | grep -c '^VIOLATION') violation line(s)"
   echo "$out" | grep -E '^  violation' | cut -c1-260 | head -${SHOW:-4}
 done
